@@ -336,6 +336,7 @@ func checkProgram(ps emitbatch.ProgSpec, bt batch, ns *rig.NatsServer) *progResu
 			for li, lp := range bt.Legs {
 				checkService(prog, f, svc, gs, methods, lp[0], lp[1], bt.Calls, rng, ns, res, addV, li == 0)
 			}
+			largeReplies(prog, svc, gs, methods, []string{"binary", "compact", "json"}[int(ps.Seed>>8&0xffff)%3], rng, ns, res, addV)
 			afterOversizeReply(prog, svc, gs, methods, []string{"binary", "compact", "json"}[int(ps.Seed&0xffff)%3], rng, ns, res, addV)
 			if pf, parent := parentOf(prog, f, svc); parent != nil {
 				if pgs, pn := findEmitted(pkgs, pf, parent); pgs != nil && pn == 1 {
@@ -496,8 +497,98 @@ func checkService(prog *idl.Program, f *idl.File, svc *idl.Service, gs *genreg.S
 }
 
 var manyConnFailed int32
-var forceOversize bool
+var forceReplySize int // > 0: the next call's handler returns a string/binary of this many bytes
 var oversizePhases, oversizeFailed int32
+
+// largeReplies: replies of a few hundred KB (far inside every transport's
+// limits) must come back intact over HTTP and TCP, whose clients read the
+// reply in several pieces.
+func largeReplies(prog *idl.Program, svc *idl.Service, gs *genreg.Service, methods []methodInfo, proto string, rng *rand.Rand, ns *rig.NatsServer, res *progResult, addV func(string, string, interface{})) {
+	if atomic.LoadInt32(&largeFailed) >= 1 || atomic.LoadInt32(&largePhases) >= 6 {
+		return
+	}
+	var big *methodInfo
+	for i := range methods {
+		mi := methods[i]
+		if !mi.m.Oneway && mi.m.Ret != nil && big == nil {
+			if k, _, _, _ := prog.ResolveKind(mi.file, mi.m.Ret); k == "string" || k == "binary" {
+				big = &methods[i]
+			}
+		}
+	}
+	if big == nil {
+		return
+	}
+	atomic.AddInt32(&largePhases, 1)
+	inner := addV
+	addV = func(sig, what string, w interface{}) {
+		atomic.AddInt32(&largeFailed, 1)
+		inner(sig, what, w)
+	}
+	for _, kind := range []string{"http", "tcp"} {
+		exp := &expectation{calls: map[string]int{}, args: map[string][]interface{}{}, outcome: map[string][]interface{}{}, observed: make(chan string, 1024)}
+		recorder := func(iface, method string, args []interface{}) []interface{} {
+			fctx, _ := args[0].(frugal.FContext)
+			token := ""
+			if fctx != nil {
+				token = fctx.CorrelationID()
+			}
+			exp.mu.Lock()
+			exp.calls[token]++
+			exp.args[token] = append([]interface{}{method}, args[1:]...)
+			out := exp.outcome[token]
+			exp.mu.Unlock()
+			select {
+			case exp.observed <- token:
+			default:
+			}
+			return out
+		}
+		var proc frugal.FProcessor
+		func() {
+			defer func() { recover() }()
+			proc = gs.NewProcessor(gs.NewStub(recorder))
+		}()
+		if proc == nil {
+			return
+		}
+		leg, err := rig.StartRPCLeg(kind, proto, proc, ns, rig.LegOptions{HTTPNoTap: true})
+		if err != nil {
+			res.Inconclusive = append(res.Inconclusive, fmt.Sprintf("leg %s/%s (large replies): %v", kind, proto, err))
+			return
+		}
+		tr, err := leg.NewClient()
+		if err != nil {
+			leg.Stop()
+			res.Inconclusive = append(res.Inconclusive, fmt.Sprintf("client %s/%s (large replies): %v", kind, proto, err))
+			return
+		}
+		client := reflect.ValueOf(gs.NewClient(frugal.NewFServiceProvider(tr, leg.PF)))
+		ct := client.Type()
+		var gm reflect.Value
+		for i := 0; i < ct.NumMethod(); i++ {
+			if norm(ct.Method(i).Name) == norm(big.m.Name) {
+				gm = client.Method(i)
+			}
+		}
+		if gm.IsValid() {
+			for c, size := range []int{20000, 300000, 900000} {
+				forceReplySize = size
+				one := runCall(prog, svc, *big, gm, fmt.Sprintf("%s-%s-large-%s-%s-%d", svc.Name, big.m.Name, kind, proto, c), kind+"/"+proto+"(large reply)", rng, exp, leg, res, addV)
+				forceReplySize = 0
+				resMu.Lock()
+				res.Calls++
+				if one != "" {
+					res.Outcomes[one]++
+				}
+				resMu.Unlock()
+			}
+		}
+		leg.Stop()
+	}
+}
+
+var largePhases, largeFailed int32
 
 // afterOversizeReply: on the NATS leg (the one transport whose server bounds
 // the reply) a handler returns a value that cannot travel; the caller must be
@@ -583,9 +674,9 @@ func afterOversizeReply(prog *idl.Program, svc *idl.Service, gs *genreg.Service,
 	if !gm.IsValid() {
 		return
 	}
-	forceOversize = true
+	forceReplySize = 1200000
 	one := runCall(prog, svc, *big, gm, fmt.Sprintf("%s-%s-oversize-%s", svc.Name, big.m.Name, proto), legName, rng, exp, leg, res, addV)
-	forceOversize = false
+	forceReplySize = 0
 	resMu.Lock()
 	res.Calls++
 	if one != "" {
@@ -926,16 +1017,20 @@ func runCall(prog *idl.Program, svc *idl.Service, mi methodInfo, gm reflect.Valu
 		wantAppType = []int32{frugal.APPLICATION_EXCEPTION_UNKNOWN, frugal.APPLICATION_EXCEPTION_MISSING_RESULT, frugal.APPLICATION_EXCEPTION_INVALID_TRANSFORM, 42}[rng.Intn(4)]
 		outcome[nOut-1] = thrift.NewTApplicationException(wantAppType, "app "+token)
 	}
-	if forceOversize && retIdx >= 0 && !m.Oneway {
+	if forceReplySize > 0 && retIdx >= 0 && !m.Oneway {
 		if k, _, _, _ := prog.ResolveKind(mi.file, m.Ret); k == "string" || k == "binary" {
-			class = "oversize-reply"
+			class = "large-reply"
+			if forceReplySize > 1<<20 {
+				class = "oversize-reply"
+			}
 			outcome = make([]interface{}, nOut)
-			av := &idl.AV{Kind: k, S: bytes.Repeat([]byte("R"), 1200000)}
+			av := &idl.AV{Kind: k, S: bytes.Repeat([]byte("R"), forceReplySize)}
 			rv := reflect.New(mt.Out(0)).Elem()
 			if err := gocodec.FillGo(rv, av); err != nil {
 				return ""
 			}
 			outcome[0] = rv.Interface()
+			wantRet = gocodec.WireTree(prog, av).Canon()
 		}
 	}
 	if class == "value" || class == "oneway" {
@@ -1035,9 +1130,9 @@ func runCall(prog *idl.Program, svc *idl.Service, mi methodInfo, gm reflect.Valu
 		if callErr != nil {
 			addV("C03:oneway-error", fmt.Sprintf("%s.%s on %s: oneway call failed: %v", svc.Name, m.Name, legName, callErr), wit(nil))
 		}
-	case "value":
+	case "value", "large-reply":
 		if callErr != nil {
-			addV("C03:value-outcome-error", fmt.Sprintf("%s.%s on %s: the handler returned a value, the caller got error %v", svc.Name, m.Name, legName, callErr), wit(map[string]interface{}{"returned": wantRet}))
+			addV("C03:"+class+"-outcome-error", fmt.Sprintf("%s.%s on %s: the handler returned a value, the caller got error %v", svc.Name, m.Name, legName, callErr), wit(map[string]interface{}{"returned": wantRet}))
 			return class
 		}
 		if retIdx >= 0 {
